@@ -123,9 +123,10 @@ func (*Service) connectorToConfig(c *connector.Instance) config.Connector {
 
 func (*Service) processorToConfig(p *processor.Instance) config.Processor {
 	return config.Processor{
-		ID:       p.ID,
-		Plugin:   p.Plugin,
-		Settings: p.Config.Settings,
-		Workers:  p.Config.Workers,
+		ID:        p.ID,
+		Plugin:    p.Plugin,
+		Settings:  p.Config.Settings,
+		Workers:   p.Config.Workers,
+		Condition: p.Condition,
 	}
 }
